@@ -156,7 +156,11 @@ func (m *ModuleInstance) ensureResourcesClosed(ctx context.Context) (err error) 
 	}
 
 	if mem := m.MemoryInstance; mem != nil {
-		if mem.expBuffer != nil {
+		// An imported memory belongs to the module that defines it: only the owner frees the buffer.
+		if importsMemory := m.Source != nil && m.Source.ImportMemoryCount > 0; importsMemory {
+			mem = nil
+		}
+		if mem != nil && mem.expBuffer != nil {
 			mem.expBuffer.Free()
 			mem.expBuffer = nil
 		}
